@@ -1231,7 +1231,10 @@ impl store::Cob for Patch {
         repo: &R,
     ) -> Result<(), Error> {
         debug_assert!(!self.timeline.contains(&op.id));
-        self.timeline.push(op.id);
+        // Apply the operation to a copy of the state, so that an operation
+        // which fails half-way through doesn't take partial effect.
+        let mut next = self.clone();
+        next.timeline.push(op.id);
 
         let doc = op.identity_doc(repo)?.ok_or(Error::MissingIdentity)?;
         let concurrent = concurrent.into_iter().collect::<Vec<_>>();
@@ -1239,7 +1242,7 @@ impl store::Cob for Patch {
         for action in op.actions {
             log::trace!(target: "patch", "Applying {} {action:?}", op.id);
 
-            if let Err(e) = self.op_action(
+            if let Err(e) = next.op_action(
                 action,
                 op.id,
                 op.author,
@@ -1252,6 +1255,8 @@ impl store::Cob for Patch {
                 return Err(e);
             }
         }
+        *self = next;
+
         Ok(())
     }
 }
